@@ -285,7 +285,19 @@ def _exclusive(order, a, b):
     return False
 
 
-def _rows_test_after(f, eff, site):
+def _helper_tests_rows(t):
+    for n in walk(t.body):
+        if n.get('kind') != 'IfStmt':
+            continue
+        c = children(n)
+        names = [strip(children(x)[0]).get('name') for x in walk(c[0]) if x.get('kind') == 'CXXMemberCallExpr']
+        if 'rows_modified' in names and (_throws(c[1]) or (len(c) > 2 and _throws(c[2])) or
+                                         any(_throws(a) for a in children(t.body)[-1:])):
+            return True
+    return False
+
+
+def _rows_test_after(f, eff, site, cg=None):
     """An if statement of f, sequenced after the statement site and before any other statement site, that tests
     rows_modified() and throws in the zero case (directly, or by returning early in the other case with a throw
     following)."""
@@ -300,6 +312,12 @@ def _rows_test_after(f, eff, site):
     limit = later_sites[0] if later_sites else len(order)
     for i in range(at + 1, limit):
         n = order[i]
+        if n.get('kind') in ('CallExpr', 'CXXMemberCallExpr') and id(n) not in inside and cg is not None:
+            # the test factored into a helper: a callee whose own body tests rows_modified() and throws
+            e = cg.edge_for(f, n)
+            for t in (e.targets if e else ()):
+                if t.body is not None and _helper_tests_rows(t):
+                    return n
         if n.get('kind') != 'IfStmt' or id(n) in inside:
             continue
         if any(id(site.node) == id(x) for x in walk(n)):
@@ -333,7 +351,7 @@ def missing_row_rejected(prog, cg, eff, chk, rid):
                 n += 1
                 chk.analysed(f)
                 inst = '%s: %s reached from update()' % (gen, _short(f.qualname))
-                t = _rows_test_after(f, eff, s)
+                t = _rows_test_after(f, eff, s, cg)
                 if t is not None:
                     chk.ok(rid, inst + ': rows_modified() tested at %s' % locstr(t), locstr(s.node))
                     continue
